@@ -134,16 +134,15 @@ structure BinVariant where
 def BinVariant.c : BinVariant := {}
 
 /-- DIVIDE () of bin_ui.c:33-38: `MPN_DIVREM_OR_DIVEXACT_1 (PTR (r), PTR (r), SIZ (r), kacc)` in place, then
-    `SIZ (r) -= (PTR (r)[SIZ (r) - 1] == 0)`.  SIZ (r) > 0 is ASSERTed. -/
+    `SIZ (r) -= (PTR (r)[SIZ (r) - 1] == 0)` — for `SIZ (r) > 0` (ASSERTed, :35) exactly the statements of mpz_tdiv_q_ui /
+    mpz_divexact_ui (r, r, kacc) (`div_q_ui`: its `MPZ_REALLOC (r, SIZ (r))` is a no-op, the quotient is formed in place
+    through `PTR (r)`, the size comes from the top limb). -/
 def binDivide (r kacc : Nat) (s : St) : R St := do
-  if ¬ (0 < s.size r) then throw "ub:DIVIDE with SIZ (r) <= 0"
-  let n := (s.size r).natAbs
-  let q ← mpn_divrem_1 (s.ptr r) (s.ptr r) n kacc s           -- bin_ui.c:36
-  let top ← limbAt q.2 (s.ptr r) (n - 1)                      -- :37
-  pure (q.2.setSize r ((n - (if top = 0 then 1 else 0) : Nat) : Int))
+  if ¬ (0 < s.size r) then throw "ub:DIVIDE with SIZ (r) <= 0"    -- bin_ui.c:35
+  let q ← div_q_ui 0 r r kacc s                               -- :36-37
+  pure q.2
 
-/-- bin_ui.c:91-124: the loop over i (the first argument is fuel = number of iterations left + 1 is not needed: it runs
-    while i ≤ k).  Returns kacc. -/
+/-- bin_ui.c:91-124: the loop over i = 1 … k (the first argument is the fuel, k, as in `Numth.binUiLoop`).  Returns kacc. -/
 def binLoop (r ni nacc k : Nat) : Nat → Nat → Nat → St → R (Nat × St)
   | 0, _, kacc, s => pure (kacc, s)
   | fuel + 1, i, kacc, s =>
@@ -169,7 +168,7 @@ def binMain (r ni k : Nat) (negate : Bool) (s : St) : R St := do
     else pure (k, s))
   let t := s.tmpInit 1                                        -- :89 mpz_init_set_ui (nacc, 1)
   let s ← t.2.setInt t.1 1
-  let (kacc, s) ← binLoop r ni t.1 k (k + 1) 1 1 s            -- :88, :91-124
+  let (kacc, s) ← binLoop r ni t.1 k k 1 1 s                  -- :88, :91-124
   let s ← mpz_mul r r t.1 s                                   -- :126
   let s ← binDivide r kacc s                                  -- :127
   let s := s.setSize r (if negate then -(s.size r) else s.size r)   -- :128
